@@ -564,6 +564,11 @@ impl<'a> Gui<'a> {
                 if let RefCmd::Debug(b) = c {
                     self.debug_on = *b;
                 }
+                if let RefCmd::UciNewGame = c {
+                    // no property says what an engine holds after ucinewgame until the next position
+                    // command: the GUI model sends the position again before it relies on it
+                    self.cur_uncertain = true;
+                }
             }
             Expect::MustErr => {
                 if !parsed.starts_with("Err(") {
